@@ -346,7 +346,7 @@ pub fn observe(rt: &tokio::runtime::Runtime, reader: &dyn TilesReaderTrait, src:
 			streams.push(stream(rt, reader, src, b));
 		}
 	}
-	let expect: Vec<Value> = looked.iter().filter(|(_, r)| **r != RES_NONE).map(|((z, y, x), r)| json!([z, x, y, r])).collect();
+	let expect: Vec<Value> = looked.iter().filter(|(_, r)| **r > 0 || **r == RES_UNKNOWN).map(|((z, y, x), r)| json!([z, x, y, r])).collect();
 	(opened, json!(lookups), json!(absent), json!(streams), json!(expect))
 }
 
